@@ -20,7 +20,8 @@ Lemma gen_bzl_ok :
                    (["--index-url"; "--index_url"], 11, 0);
                    (["--find-links"; "--find_links"], 12, 2)] /\
   c16_bzl_comment = "#"%char /\
-  c16_bzl_strip = String "="%char (String " "%char (String (ascii_of_nat 10) (String """"%char (String "'"%char EmptyString)))).
+  c16_bzl_strip = String "="%char (String " "%char (String (ascii_of_nat 9) (String (ascii_of_nat 10) (String """"%char (String "'"%char EmptyString))))) /\
+  c16_bzl_strip_line = true.
 Proof. repeat split; reflexivity. Qed.
 
 Lemma gen_cli_ok :
@@ -31,7 +32,7 @@ Lemma gen_cli_ok :
      (["-w"; "--wheel-dir"], "wheel_dir", 1, false); (["--no-index"], "no_index", 2, false);
      (["-e"; "--editable"], "editable_sources", 0, false)] /\
   c16_cli_strict = true /\ c16_cli_norm_strip = "/" /\
-  c16_cli_merged = ["index_urls"; "extra_index_urls"; "editable_sources"].
+  c16_cli_merged = ["index_urls"; "extra_index_urls"; "find_links"; "no_index"; "editable_sources"].
 Proof. repeat split; reflexivity. Qed.
 
 (* ------------------------------------------------------------------ append / rev_str *)
@@ -528,3 +529,141 @@ Section Lines.
     - apply split_flat_ws; assumption.
   Qed.
 End Lines.
+
+(* ------------------------------------------------------------------ pip's option-line grammar *)
+(* ---- dropping the trailing comment *)
+Lemma dc_nows w s : all_chars nsp w = true ->
+  drop_comment_go (w ++ s) "" false = w ++ drop_comment_go s "" false.
+Proof.
+  induction w as [|c w IH]; intros H; cbn [append]; [reflexivity|].
+  cbn in H. apply andb_true_iff in H as [Hc Hw]. unfold nsp in Hc. apply negb_true_iff in Hc.
+  cbn [drop_comment_go]. rewrite andb_false_r. rewrite Hc. cbn [rev_str append]. rewrite IH by exact Hw. reflexivity.
+Qed.
+Lemma dc_word w s pend a : tok_ok w -> startswith w "#" = false ->
+  drop_comment_go (w ++ s) pend a = rev_str pend ++ w ++ drop_comment_go s "" false.
+Proof.
+  intros [Hne Hw] Hh. destruct w as [|c w]; [congruence|].
+  cbn in Hw. apply andb_true_iff in Hw as [Hc Hw]. unfold nsp in Hc. apply negb_true_iff in Hc.
+  unfold startswith in Hh. cbn [prefixb] in Hh. rewrite andb_true_r in Hh.
+  cbn [append drop_comment_go]. unfold hash_char. rewrite Ascii.eqb_sym, Hh. cbn [andb]. rewrite Hc.
+  rewrite dc_nows by exact Hw. reflexivity.
+Qed.
+Lemma dc_ws ws s pend a : ws <> "" -> all_chars is_space ws = true ->
+  drop_comment_go (ws ++ s) pend a = drop_comment_go s (rev_str ws ++ pend) false.
+Proof.
+  revert pend a. induction ws as [|c ws IH]; intros pend a Hne H; [congruence|].
+  cbn in H. apply andb_true_iff in H as [Hc Hws].
+  cbn [append drop_comment_go]. unfold hash_char. rewrite (space_not_hash _ Hc). cbn [andb]. rewrite Hc.
+  destruct ws as [|d ws].
+  - cbn [append]. reflexivity.
+  - rewrite IH by (try discriminate; exact Hws). rewrite (rev_cons c), sapp_assoc. reflexivity.
+Qed.
+Lemma dc_comment text pend a : pend <> "" -> drop_comment_go ("#" ++ text) pend a = "".
+Proof.
+  intros H. cbn [append drop_comment_go]. unfold hash_char. rewrite Ascii.eqb_refl.
+  destruct pend; [congruence|]. cbn. rewrite orb_true_r. reflexivity.
+Qed.
+
+(* ---- shlex on one word *)
+Definition stq (q : option ascii) : shst := match q with None => SA | Some c => SQ c end.
+Definition has_q (w : string) : bool := has_char "'"%char w || has_char """"%char w.
+Definition is_some {A} (o : option A) : bool := match o with Some _ => true | None => false end.
+Definition shword_ok (w : string) : Prop :=
+  all_chars (fun c => negb (is_space c) && negb (Ascii.eqb c bs)) w = true.
+
+Lemma space_of_shlex_ws c : shlex_ws c = true -> is_space c = true.
+Proof.
+  unfold shlex_ws. intros H. repeat (apply orb_true_iff in H as [H|H]); apply Ascii.eqb_eq in H; subst c; reflexivity.
+Qed.
+Lemma not_shlex_ws c : is_space c = false -> shlex_ws c = false.
+Proof. intros H. destruct (shlex_ws c) eqn:E; [|reflexivity]. apply space_of_shlex_ws in E. congruence. Qed.
+
+Lemma sh_word_run : forall w q tok quoted u s,
+  shword_ok w -> shlex_word q w = Some u ->
+  shlex_go (w ++ s) (stq q) tok quoted = shlex_go s SA (rev_str u ++ tok) (quoted || is_some q || has_q w).
+Proof.
+  induction w as [|c w IH]; intros q tok quoted u s Hok Hw.
+  - destruct q; cbn in Hw; [discriminate|]. injection Hw as <-. cbn. rewrite !orb_false_r. reflexivity.
+  - unfold shword_ok in Hok. cbn [all_chars] in Hok. apply andb_true_iff in Hok as [Hc Hok].
+    apply andb_true_iff in Hc as [Hsp Hbs]. apply negb_true_iff in Hsp, Hbs.
+    assert (Hbs' : Ascii.eqb c bslash = false) by exact Hbs.
+    cbn [append]. destruct q as [qc|]; cbn [shlex_word] in Hw; cbn [stq shlex_go].
+    + destruct (Ascii.eqb c qc) eqn:Eq.
+      * pose proof (IH None tok true u s Hok Hw) as E. cbn [stq] in E. rewrite E. cbn [is_some]. rewrite !orb_true_r. reflexivity.
+      * rewrite Hbs'. cbn [andb].
+        destruct (shlex_word (Some qc) w) as [u'|] eqn:Eu; [|discriminate]. injection Hw as <-.
+        pose proof (IH (Some qc) (String c tok) true u' s Hok Eu) as E. cbn [stq] in E. rewrite E. cbn [is_some]. rewrite !orb_true_r.
+        rewrite rev_cons, sapp_assoc. reflexivity.
+    + rewrite (not_shlex_ws _ Hsp). unfold is_quote.
+      destruct (Ascii.eqb c "'"%char || Ascii.eqb c """"%char) eqn:Eq.
+      * pose proof (IH (Some c) tok true u s Hok Hw) as E. cbn [stq] in E. rewrite E. cbn [is_some].
+        assert (Hq : has_q (String c w) = true).
+        { unfold has_q. cbn [has_char]. apply orb_true_iff in Eq as [E1|E1]; rewrite E1; cbn; rewrite ?orb_true_r; reflexivity. }
+        rewrite Hq, !orb_true_r. reflexivity.
+      * rewrite Hbs'. destruct (shlex_word None w) as [u'|] eqn:Eu; [|discriminate]. injection Hw as <-.
+        pose proof (IH None (String c tok) quoted u' s Hok Eu) as E. cbn [stq] in E. rewrite E. cbn [is_some].
+        apply orb_false_iff in Eq as [E1 E2].
+        assert (Hq : has_q (String c w) = has_q w) by (unfold has_q; cbn [has_char]; rewrite E1, E2; reflexivity).
+        rewrite Hq, rev_cons, sapp_assoc. reflexivity.
+Qed.
+
+Lemma shlex_word_noq w : has_q w = false -> shlex_word None w = Some w.
+Proof.
+  unfold has_q. induction w as [|c w IH]; cbn [has_char shlex_word]; [reflexivity|].
+  intros H. apply orb_false_iff in H as [H1 H2]. apply orb_false_iff in H1 as [H1a H1b], H2 as [H2a H2b].
+  rewrite H1a, H2a. cbn [orb]. rewrite IH by (rewrite H1b, H2b; reflexivity). reflexivity.
+Qed.
+
+(* a word is always emitted as a token: it is non-empty or was quoted *)
+Lemma sh_word_emits w u quoted : w <> "" -> shlex_word None w = Some u ->
+  negb (String.eqb (rev_str u) "") || (quoted || false || has_q w) = true.
+Proof.
+  intros Hne Hu. destruct (has_q w) eqn:Eq; [rewrite !orb_true_r; reflexivity|].
+  rewrite shlex_word_noq in Hu by exact Eq. injection Hu as <-.
+  destruct (String.eqb (rev_str w) "") eqn:E; [|reflexivity].
+  apply String.eqb_eq, rev_eq_nil in E. contradiction.
+Qed.
+
+Definition sh_ws_chars (s : string) : Prop :=
+  all_chars (fun c => Ascii.eqb c " "%char || Ascii.eqb c (ascii_of_nat 9)) s = true.
+Lemma sh_ws_is_shlex c : (Ascii.eqb c " "%char || Ascii.eqb c (ascii_of_nat 9)) = true -> shlex_ws c = true /\ is_space c = true.
+Proof. intros H. apply orb_true_iff in H as [H|H]; apply Ascii.eqb_eq in H; subst c; split; reflexivity. Qed.
+Lemma sh_skip_ws ws s : sh_ws_chars ws -> shlex_go (ws ++ s) SW "" false = shlex_go s SW "" false.
+Proof.
+  unfold sh_ws_chars. induction ws as [|c ws IH]; intros H; [reflexivity|].
+  cbn in H. apply andb_true_iff in H as [Hc Hws]. destruct (sh_ws_is_shlex _ Hc) as [Hc' _].
+  cbn [append shlex_go]. rewrite Hc'. apply IH; exact Hws.
+Qed.
+Lemma sh_ws_space ws : sh_ws_chars ws -> all_chars is_space ws = true.
+Proof. apply all_impl. intros c H. apply sh_ws_is_shlex in H. apply H. Qed.
+
+(* from the start state a word char is treated as in the in-word state *)
+Lemma sh_start_word w s : w <> "" -> shword_ok w ->
+  shlex_go (w ++ s) SW "" false = shlex_go (w ++ s) SA "" false.
+Proof.
+  destruct w as [|c w]; [congruence|]. intros _ H. unfold shword_ok in H. cbn [all_chars] in H.
+  apply andb_true_iff in H as [Hc _]. apply andb_true_iff in Hc as [Hsp Hbs]. apply negb_true_iff in Hsp, Hbs.
+  cbn [append shlex_go]. rewrite (not_shlex_ws _ Hsp). change (Ascii.eqb c bslash) with (Ascii.eqb c bs). rewrite Hbs.
+  destruct (is_quote c); reflexivity.
+Qed.
+
+(* one word followed by blanks/tabs, or by the end *)
+Lemma sh_word_then_ws w u ws s : w <> "" -> shword_ok w -> shlex_word None w = Some u ->
+  ws <> "" -> sh_ws_chars ws ->
+  shlex_go (w ++ ws ++ s) SW "" false = option_map (cons u) (shlex_go s SW "" false).
+Proof.
+  intros Hne Hok Hu Hws1 Hws2. rewrite sh_start_word by assumption.
+  change SA with (stq None). rewrite (sh_word_run w None "" false u (ws ++ s) Hok Hu).
+  destruct ws as [|c ws]; [congruence|]. unfold sh_ws_chars in Hws2. cbn [all_chars] in Hws2.
+  apply andb_true_iff in Hws2 as [Hc Hws2]. destruct (sh_ws_is_shlex _ Hc) as [Hc' _].
+  cbn [append shlex_go is_some]. rewrite Hc'. rewrite sapp_nil_r. unfold sh_emit.
+  rewrite (sh_word_emits w u false Hne Hu). rewrite rev_invol. f_equal. apply sh_skip_ws. exact Hws2.
+Qed.
+Lemma sh_word_end w u : w <> "" -> shword_ok w -> shlex_word None w = Some u ->
+  shlex_go w SW "" false = Some [u].
+Proof.
+  intros Hne Hok Hu. rewrite <- (sapp_nil_r w). rewrite sh_start_word by assumption.
+  change SA with (stq None). rewrite (sh_word_run w None "" false u "" Hok Hu).
+  cbn [shlex_go is_some]. rewrite sapp_nil_r. unfold sh_emit.
+  rewrite (sh_word_emits w u false Hne Hu). rewrite rev_invol. reflexivity.
+Qed.
